@@ -499,8 +499,7 @@ Qed.
 
 Lemma ospan_event_bad : forall hr s, ev_bad (ospan_event hr s) = ospan_malformed hr s.
 Proof.
-  intros hr s. unfold ospan_event, ospan_malformed. destruct hr; cbn [negb orb]; [|reflexivity].
-  destruct (o_nilattr s); reflexivity.
+  intros hr s. unfold ospan_event, ospan_malformed. destruct (o_nilattr s); reflexivity.
 Qed.
 
 Lemma otlp_events_bad : forall rs,
@@ -516,7 +515,7 @@ Lemma otlp_events_proper : forall rs, Forall ev_err_proper (otlp_events rs).
 Proof.
   intros rs. apply Forall_forall. intros ev Hin. unfold otlp_events in Hin.
   apply in_flat_map in Hin as [r [_ Hin]]. apply in_map_iff in Hin as [s [<- _]].
-  unfold ospan_event. destruct (negb (r_has_resource r)); [exact I|]. destruct (o_nilattr s); exact I.
+  unfold ospan_event. destruct (o_nilattr s); exact I.
 Qed.
 
 Lemma ingest_char : forall ct from until name w,
